@@ -154,6 +154,7 @@ func wait() {
 	hmu.Unlock()
 	synctest.Wait()
 	hmu.Lock()
+	report.Progress()
 }
 
 func hsleep(d time.Duration) {
